@@ -28,26 +28,33 @@ def main(tier):
         dpt, multi = a
         return a, subprocess.run([os.path.join(out, "harness", "ephmc"), str(dpt), str(multi)], env=e, stdout=subprocess.PIPE,
                                  stderr=subprocess.STDOUT, timeout=3000)
-    def run_fds2(_):
-        # two port slots x two kinds of port (file port, port on a descriptor object), every history of <= 4 operations (plain build)
+    FDS2_OPS = 12
+    def run_fds2(k):
+        # two slots x three kinds of owner (file port, port on a descriptor object, bare descriptor object), every history of <= 4
+        # operations on the plain build; one process per first operation
         build.build_variant("opt")
-        return common.evalbatch("opt", [os.path.join(common.VERIF, "scheme", "weak", "fds2.scm")], timeout=1200)
-    with ThreadPoolExecutor(3) as ex:
-        fut2 = ex.submit(run_fds2, None)
+        return common.evalbatch("opt", [os.path.join(common.VERIF, "scheme", "weak", "fds2.scm")], timeout=1200, env={"FDS2_FIRST": str(k)})
+    with ThreadPoolExecutor(common.NCPU) as ex:
+        futs = [ex.submit(run_fds2, k) for k in range(FDS2_OPS)]
         runs = list(ex.map(run_ephmc, [(depth, 0), (depth - 1, 1)]))
-        r2 = fut2.result()
-    mm = re.search(r"^FD2-HISTORIES \((\d+) (\d+)\)", r2.out, re.M)
-    if r2.rc != 0 or r2.timed_out or not mm or ";;EXC" in r2.out:
-        chk.violation({"op": "fds2-crash"}, "two-slot descriptor scenario ended abnormally (rc=%s): %s" % (r2.rc, r2.out[-600:]))
-    else:
+        r2s = [f.result() for f in futs]
+    nh2 = 0
+    for k, r2 in enumerate(r2s):
+        mm = re.search(r"^FD2-HISTORIES \((\d+) (\d+) (\d+)\)", r2.out, re.M)
+        if r2.rc != 0 or r2.timed_out or not mm or ";;EXC" in r2.out:
+            chk.violation({"op": "fds2-crash", "first": k}, "two-slot descriptor scenario (first operation %d) ended abnormally (rc=%s): %s" % (k, r2.rc, r2.out[-600:]))
+            continue
         chk.count(int(mm.group(1)), outcome="port-history")
         chk.nontrivial_n += int(mm.group(1))
-        chk.cov["port_histories_two_slots"] = int(mm.group(1))
+        nh2 += int(mm.group(1))
         for l in r2.out.split("\n"):
             if l.startswith("FD2-MISMATCH"):
                 chk.violation({"op": "fd-leak-or-early-close", "line": l}, "descriptor count / readability differs from the model: " + l)
-        if int(mm.group(2)) and "FD2-MISMATCH" not in r2.out:
-            chk.violation({"op": "fd-final-count"}, "%s histories left descriptors open at their end" % mm.group(2))
+            if l.startswith("FD2-LEFTOVER"):
+                chk.violation({"op": "fd-leftover", "line": l}, "a descriptor stayed open after every port was dropped and a collection ran: " + l)
+        if (int(mm.group(2)) and "FD2-MISMATCH" not in r2.out) or (int(mm.group(3)) and "FD2-LEFTOVER" not in r2.out):
+            chk.violation({"op": "fd-final-count", "first": k}, "%s histories failed / %s left descriptors open" % (mm.group(2), mm.group(3)))
+    chk.cov["port_histories_two_slots"] = nh2
     for (dpt, multi), p in runs:
         txt = p.stdout.decode("utf-8", "replace")
         m = re.search(r"STATS states=(\d+) transitions=(\d+) depth=(\d+) alphabet=(\d+) gc_transitions=(\d+) violations=(\d+)", txt)
